@@ -2,6 +2,10 @@
 import re
 from ..mir import call_matches, callee_name, op_local, op_const_int, place_str
 from ..flow import resolve_place, arg_place, origins, expr
+from .c16 import inl, xcalls, family, origin, hosts, const_int, value_def, bool_edges, ret_locals, err_blocks
+
+# callees the poll rules use as anchors: never expanded into poll (private helpers of poll are)
+POLL_KEEP = r"^common::IOQueue::|^unix::guard_io$|^unix::Poll(Event|Events)?::"
 
 
 CLAIM = {
@@ -17,7 +21,7 @@ CLAIM = {
 
 def calls_matching(body, pat, recv=None, argi=0):
     out = []
-    for bb, t in body.calls():
+    for bb, t in xcalls(body):
         if call_matches(t, pat):
             if recv is not None:
                 if not t["args"] or arg_place(body, t, argi) != recv:
@@ -47,6 +51,63 @@ def agg_of(body, operand):
     return None
 
 
+_NEG = {"Eq": "Ne", "Ne": "Eq", "Gt": "Le", "Le": "Gt", "Lt": "Ge", "Ge": "Lt"}
+_SWAP = {"Gt": "Lt", "Lt": "Gt", "Ge": "Le", "Le": "Ge", "Eq": "Eq", "Ne": "Ne"}
+
+
+def cmp_def(body, operand):
+    """(op, a, b): the integer comparison that defines a bool operand, seen through copies, hoisted locals and Not"""
+    neg = False
+    l = op_local(operand)
+    seen = set()
+    while l is not None and l not in seen:
+        seen.add(l)
+        ds = body.defs_of(l)
+        if len(ds) != 1 or ds[0][1] == "term":
+            return None
+        rv = ds[0][2]
+        if rv["k"] == "use":
+            l = op_local(rv["a"])
+        elif rv["k"] == "un" and rv["op"] == "Not":
+            neg = not neg
+            l = op_local(rv["a"])
+        elif rv["k"] == "bin" and rv["op"] in _NEG:
+            op = _NEG[rv["op"]] if neg else rv["op"]
+            return op, rv["a"], rv["b"]
+        else:
+            return None
+    return None
+
+
+def zero_split(body, term, is_value):
+    """For a switch that separates `x == 0` from `x != 0`, where x is an operand accepted by is_value: (target when x != 0,
+    target when x == 0).  Understands x != 0, x > 0, x >= 1, 0 < x, !(x == 0), x == 0, x < 1, ... on a bool switch and a switch on x itself."""
+    if term["k"] != "switch":
+        return None
+    ed = bool_edges(term)
+    c = cmp_def(body, term["d"]) if ed else None
+    if c is not None:
+        op, a, b = c
+        n = const_int(body, b)
+        x = a
+        if n is None:
+            n, x, op = const_int(body, a), b, _SWAP[op]
+        if n is None or not is_value(x):
+            return None
+        # truth of `x op n` for x == 0 and for every x >= 1 (x is unsigned)
+        t0 = {"Eq": 0 == n, "Ne": 0 != n, "Gt": 0 > n, "Ge": 0 >= n, "Lt": 0 < n, "Le": 0 <= n}[op]
+        pos = {"Eq": None, "Ne": True if n == 0 else None, "Gt": True if n <= 0 else None, "Ge": True if n <= 1 else None,
+               "Lt": False if n <= 1 else None, "Le": False if n <= 0 else None}[op]
+        if op == "Eq" and n == 0:
+            pos = False
+        if pos is None or pos == t0:
+            return None
+        return (ed[0], ed[1]) if pos else (ed[1], ed[0])
+    if term["vals"] == ["0"] and term.get("dty") != "bool" and is_value(term["d"]):
+        return term["otherwise"], term["targets"][0]
+    return None
+
+
 def run(ctx):
     prog = ctx.prog
     ctx.explanation = (
@@ -56,14 +117,27 @@ def run(ctx):
         "DeviceAttrs sync, and dispose polls after queuing it; (c) the waker closure performs exactly one raw write of a non-empty "
         "constant and maps EINTR/EAGAIN to Ok, and poll pushes Wake whenever the waker read returned != 0; (d) every registered signal "
         "is handled: SIGWINCH -> Resize/size query, SIGTERM|SIGINT|SIGQUIT -> Err(Quit); (e) within one poll-loop iteration all four "
-        "readiness handlers are evaluated (no `continue` skips input while output is pending). NOT decided: bounded-time delivery, "
+        "readiness handlers are evaluated (no `continue` skips input while output is pending). Every anchored function is analysed with its "
+        "private single-caller helpers expanded in place; comparisons and signal dispatch are decided on their meaning (any spelling of `!= 0`, "
+        "match or if-chain on the signal number). NOT decided: bounded-time delivery, "
         "cross-thread ordering, restoration after abnormal termination (schedules / crash points are not static objects).")
     ctx.assume("unwind paths and process aborts are out of scope; OS/terminal behaviour is not modelled")
 
+    # every anchored function is looked at with its private single-caller helpers expanded in place (helper extraction is invisible);
+    # the callees the rules use as anchors stay calls
+    POLL = r"^<unix::UnixTerminal as terminal::Terminal>::poll$"
     dispose = prog.one(r"^unix::UnixTerminal::dispose$")
     drop = prog.one(r"^<unix::UnixTerminal as std::ops::Drop>::drop$")
     newfd = prog.one(r"^unix::UnixTerminal::new_from_fd$")
-    poll = prog.one(r"^<unix::UnixTerminal as terminal::Terminal>::poll$")
+    poll = prog.one(POLL)
+    if dispose is not None:
+        dispose = inl(prog, dispose.path, keep=POLL + r"|^unix::UnixTerminal::dispose$|Terminal::(execute_many|execute|frames_drop)$|^terminal::TerminalCommand::")
+    if drop is not None:
+        drop = inl(prog, drop.path, keep=r"^unix::UnixTerminal::dispose$")
+    if newfd is not None:
+        newfd = inl(prog, newfd.path, keep=r"^terminal::TerminalWaker::new$|SignalDelivery")
+    if poll is not None:
+        poll = inl(prog, poll.path, keep=POLL_KEEP)
 
     # ---------- (a) restore ------------------------------------------------------------------
     ctx.rule("RESTORE", "dispose: every normal return passes tcsetattr(&self.tty, _, &self.termios_saved); Drop::drop calls dispose", floor=2)
@@ -99,13 +173,20 @@ def run(ctx):
     else:
         # literal sites of UnixTerminal
         lits = []
+        ctor_family = family(newfd)
         for b in prog.bodies:
             for i, si, s in b.assigns():
                 rv = s["rv"]
                 if rv["k"] == "agg" and rv["ak"] == "adt" and rv["adt"] == "unix::UnixTerminal":
+                    if b.path in ctor_family:
+                        continue      # judged below, inside new_from_fd with its helpers expanded
                     lits.append((b, i, s))
+        for i, si, s in newfd.assigns():
+            rv = s["rv"]
+            if rv["k"] == "agg" and rv["ak"] == "adt" and rv["adt"] == "unix::UnixTerminal":
+                lits.append((newfd, i, s))
         for b, i, s in lits:
-            ctx.instance("SAVED-ONCE", {"literal_site": b.path, "line": s["line"]})
+            ctx.instance("SAVED-ONCE", {"literal_site": origin(b, i), "line": s["line"]})
             if b.path != newfd.path:
                 ctx.violation("SAVED-ONCE", b.path, "literal", "UnixTerminal constructed outside new_from_fd", sites=["%s:%d" % (b.file, s["line"])])
                 continue
@@ -228,7 +309,7 @@ def run(ctx):
         if len(tw) == 1:
             a = agg_of(newfd, tw[0][1]["args"][0])
             if a and a[0] == "agg" and a[1]["ak"] == "closure":
-                wk = prog.body(a[1]["def"])
+                wk = inl(prog, a[1]["def"]) if prog.body(a[1]["def"]) is not None else None
     if wk is None:
         ctx.anchor("WAKER", "waker-closure", "closure handed to TerminalWaker::new not found")
     else:
@@ -291,40 +372,35 @@ def run(ctx):
         ctx.anchor("WAKER", "poll/waker-branch", "waker read or push_back(Wake) not recognised in poll")
     else:
         rbb = rd[0][0]
-        # the switch on Ne/Eq(read_result, 0)
+
+        def is_read_count(o):
+            """the operand is the byte count of the waker read: guard_io(<that read>) seen through `?` / match payloads / copies"""
+            og = origins(poll, o)
+            if not (og and all(x[0] == "call" and x[2] == "unix::guard_io" for x in og)):
+                return False
+            for (k, g, n) in og:
+                og2 = origins(poll, poll.blocks[g]["term"]["args"][0])
+                if not any(x[0] == "call" and x[1] == rbb for x in og2):
+                    return False
+            return True
+
+        # the branch that separates `read result == 0` from `!= 0` (any spelling: != 0, > 0, >= 1, 0 <, == 0 with swapped arms, match 0 / _)
         found = False
+        nxt = [bb for bb, t in calls_matching(poll, r"^unix::PollEvent::is_readable$")]
         for i, tt in poll.terms():
             if tt["k"] != "switch" or not cfg.dominates(rbb, i):
                 continue
-            l = op_local(tt["d"])
-            ds = poll.defs_of(l) if l is not None else []
-            if len(ds) == 1 and ds[0][1] != "term" and ds[0][2]["k"] == "bin" and ds[0][2]["op"] in ("Ne", "Eq"):
-                rv = ds[0][2]
-                if op_const_int(rv["b"]) != 0:
-                    continue
-                og = origins(poll, rv["a"])
-                if not (og and all(o[0] == "call" and o[2] == "unix::guard_io" for o in og)):
-                    continue
-                # does this guard_io consume the waker read?
-                gi = [b2 for (k, b2, n) in og]
-                g_ok = False
-                for g in gi:
-                    gt = poll.blocks[g]["term"]
-                    og2 = origins(poll, gt["args"][0])
-                    if any(o[0] == "call" and o[1] == rbb for o in og2):
-                        g_ok = True
-                if not g_ok:
-                    continue
-                found = True
-                nonzero_t = tt["otherwise"] if rv["op"] == "Ne" else tt["targets"][tt["vals"].index("0")]
-                zero_t = tt["targets"][tt["vals"].index("0")] if rv["op"] == "Ne" else tt["otherwise"]
-                # next handler: tty.is_readable
-                nxt = [bb for bb, t in calls_matching(poll, r"^unix::PollEvent::is_readable$")]
-                nxt_after = [b for b in nxt if b in cfg.reachable_from(nonzero_t)]
-                ok, wit = cfg.must_pass(push_wake, start=nonzero_t, exits=nxt_after or cfg.returns)
-                ctx.instance("WAKER", {"switch_block": i, "nonzero_edge": nonzero_t, "push_wake_blocks": push_wake, "must_pass": ok})
-                if not ok:
-                    ctx.violation("WAKER", poll.path, "wake-dropped", "a byte read from the waker pipe is drained without queueing TerminalEvent::Wake (path %s)" % wit, sites=["%s:%d" % (poll.file, rd[0][1]["line"])])
+            sp = zero_split(poll, tt, is_read_count)
+            if sp is None:
+                continue
+            found = True
+            nonzero_t, zero_t = sp
+            # next handler: tty.is_readable
+            nxt_after = [b for b in nxt if b in cfg.reachable_from(nonzero_t)]
+            ok, wit = cfg.must_pass(push_wake, start=nonzero_t, exits=nxt_after or cfg.returns)
+            ctx.instance("WAKER", {"switch_block": i, "nonzero_edge": nonzero_t, "push_wake_blocks": push_wake, "must_pass": ok})
+            if not ok:
+                ctx.violation("WAKER", poll.path, "wake-dropped", "a byte read from the waker pipe is drained without queueing TerminalEvent::Wake (path %s)" % wit, sites=["%s:%d" % (poll.file, rd[0][1]["line"])])
         if not found:
             ctx.violation("WAKER", poll.path, "nonzero-test", "poll does not branch on `waker read result != 0` before pushing Wake", sites=["%s:%d" % (poll.file, rd[0][1]["line"])])
 
@@ -343,20 +419,68 @@ def run(ctx):
         ctx.anchor("SIGNALS", "registered-signals-or-pending")
     else:
         pb = pend[0][0]
-        # the switch on the signal number
+
+        def is_signal(o):
+            l = o["place"]["l"] if o.get("k") in ("copy", "move") else None
+            return l is not None and poll.local_ty(l) == "i32"
+
+        def dispatch(start, value):
+            """block reached from `start` when the signal number is `value`, following only branches on the signal number
+            (a `match` switch, or an if / else-if chain of `signal == CONST` tests); stops at the first other block"""
+            bb = start
+            env = {}          # bool temporaries of `matches!(signal, A | B)`: assigned a constant on each side of the signal switch
+            for _ in range(64):
+                tt = poll.blocks[bb]["term"]
+                asg = [x for x in poll.blocks[bb]["stmts"] if x["k"] == "assign"]
+                flags = [x for x in asg if not x["place"]["p"] and poll.local_ty(x["place"]["l"]) == "bool" and x["rv"]["k"] == "use" and op_const_int(x["rv"]["a"]) in (0, 1)]
+                if tt["k"] == "goto" and len(flags) == len(asg):
+                    for x in flags:
+                        env[x["place"]["l"]] = op_const_int(x["rv"]["a"])
+                    bb = tt["t"]          # trampoline (possibly setting a matches! temporary)
+                    continue
+                if tt["k"] != "switch":
+                    return bb
+                if tt.get("dty") == "i32" and is_signal(tt["d"]):
+                    bb = tt["targets"][tt["vals"].index(str(value))] if str(value) in tt["vals"] else tt["otherwise"]
+                    continue
+                ed = bool_edges(tt)
+                dl = op_local(tt["d"])
+                if ed and dl in env:
+                    bb = ed[0] if env[dl] else ed[1]
+                    continue
+                c = cmp_def(poll, tt["d"]) if ed else None
+                if c is None:
+                    return bb
+                op, a, b = c
+                n, x = const_int(poll, b), a
+                if n is None:
+                    n, x, op = const_int(poll, a), b, _SWAP[op]
+                if n is None or not is_signal(x):
+                    return bb
+                truth = {"Eq": value == n, "Ne": value != n, "Gt": value > n, "Ge": value >= n, "Lt": value < n, "Le": value <= n}[op]
+                bb = ed[0] if truth else ed[1]
+            return bb
+
+        # the first branch on the signal number inside the `pending()` loop
         sw = None
         for i, tt in poll.terms():
-            if tt["k"] == "switch" and cfg.dominates(pb, i) and tt["dty"] == "i32" and len(tt["vals"]) >= 2:
-                sw = (i, tt)
-                break
+            if tt["k"] != "switch" or not cfg.dominates(pb, i) or i == pb:
+                continue
+            if (tt.get("dty") == "i32" and is_signal(tt["d"])) or (bool_edges(tt) and dispatch(i, -1) != i):
+                if sw is None or cfg.dominates(i, sw[0]):
+                    sw = (i, tt)
         if sw is None:
             ctx.anchor("SIGNALS", "signal-switch")
         else:
             i, tt = sw
-            table = {int(v): tg for v, tg in zip(tt["vals"], tt["targets"])}
+            ignore_arm = dispatch(i, -1)          # where a number that is no signal at all ends up
+            table = {s_: dispatch(i, s_) for s_ in registered if s_ is not None}
+            table = {s_: tg for s_, tg in table.items() if tg != ignore_arm}
             quit_blocks = set()
+            rl = ret_locals(poll)
+            errs = err_blocks(poll)
             for bi, si, s in poll.assigns():
-                if s["place"]["l"] == 0 and s["rv"]["k"] == "agg" and s["rv"].get("variant") == "Err":
+                if s["place"]["l"] in rl and not s["place"]["p"] and s["rv"]["k"] == "agg" and s["rv"].get("variant") == "Err":
                     a = agg_of(poll, s["rv"]["fields"][0])
                     if a and a[0] == "agg" and a[1].get("variant") == "Quit":
                         quit_blocks.add(bi)
@@ -381,19 +505,17 @@ def run(ctx):
                     if not ok:
                         # allow paths that return Err
                         ok = all(b not in cfg.returns for b in [wit[-1]]) is False and False
-                    okw, witw = cfg.must_pass(set(resize_push) | set(size_query), start=tg, exits=[b for b in loop_heads_reaching(cfg, tg)])
+                    # error returns (size()? may fail) end the iteration: not a way back to the signal loop
+                    okw, witw = cfg.must_pass(set(resize_push) | set(size_query), start=tg, exits=[b for b in loop_heads_reaching(cfg, tg)], removed=errs - {tg})
                     if not okw:
                         ctx.violation("SIGNALS", poll.path, "SIGWINCH-lost", "SIGWINCH can return to the signal loop without a Resize event or a size query (path %s)" % witw, sites=["%s:%d" % (poll.file, pend[0][1]["line"])])
                 else:
-                    if tg not in quit_blocks:
+                    # every way on from the arm passes `return Err(Quit)` before the function returns or the signal loop goes on
+                    if not quit_blocks or not cfg.must_pass(quit_blocks, start=tg, exits=list(cfg.returns) + [h for h in back if h != tg])[0]:
                         ctx.violation("SIGNALS", poll.path, nm + "-not-quit", "%s does not surface as Err(Error::Quit)" % nm, sites=["%s:%d" % (poll.file, pend[0][1]["line"])])
 
     # ---------- (e) no starvation ----------------------------------------------------------------
     ctx.rule("ALL-HANDLERS", "one poll-loop iteration evaluates tty-writable, signal, waker and tty-readable handlers (no continue in between)", floor=4)
-    tests = []
-    for bb, t in poll.calls():
-        if call_matches(t, r"^unix::PollEvent::(is_writable|is_readable)$"):
-            tests.append((bb, callee_name(t).split("::")[-1], t["line"]))
     loops = cfg.loops()
     cw = calls_matching(poll, r"^common::IOQueue::consume_with$")
     main = None
@@ -401,9 +523,24 @@ def run(ctx):
         cand = [(len(body), h) for h, body in loops.items() if cw[0][0] in body]
         if cand:
             main = max(cand)[1]
+    # readiness tests of the main loop, one per (test, event source); a repeated test of the same event counts once (the dominating one)
+    tests = []
+    seen_tests = {}
+    for bb, t in xcalls(poll):
+        if call_matches(t, r"^unix::PollEvent::(is_writable|is_readable)$") and (main is None or bb in loops[main]):
+            key = (callee_name(t).split("::")[-1], expr(poll, t["args"][0]))
+            if key in seen_tests:
+                if cfg.dominates(bb, seen_tests[key]):
+                    tests = [x for x in tests if x[0] != seen_tests[key]]
+                else:
+                    continue
+            seen_tests[key] = bb
+            tests.append((bb, key[0], t["line"]))
     if main is None or len(tests) != 4:
         ctx.anchor("ALL-HANDLERS", "poll/handlers", "expected 4 readiness tests in the main loop, found %d" % len(tests))
     else:
+        # order of evaluation within the iteration (not block numbering: expanded helpers are numbered last)
+        tests.sort(key=lambda x: sum(1 for y in tests if cfg.dominates(y[0], x[0])))
         first = tests[0][0]
         for bb, nm, line in tests:
             ok, wit = cfg.must_pass([bb], start=first, exits=[main])
@@ -417,7 +554,8 @@ def run(ctx):
     ctx.rule("WRITE-FIRST", "poll: within one iteration the tty-writable handler (consume_with) is evaluated before the signal handler, whose TERM/INT/QUIT arm "
                             "returns Err(Quit) — dispose's closing sequence reaches the tty even when a termination signal is already pending", floor=1)
     wr = [(bb, line) for bb, nm, line in tests if nm == "is_writable"]
-    sig = [(bb, t) for bb, t in poll.calls() if call_matches(t, r"^unix::PollEvent::is_readable$") and "SignalDelivery::get_read" in expr(poll, t["args"][0])]
+    sig = [(bb, t) for bb, t in xcalls(poll) if call_matches(t, r"^unix::PollEvent::is_readable$") and "SignalDelivery::get_read" in expr(poll, t["args"][0])
+           and any(bb == x[0] for x in tests)]
     if len(wr) != 1 or len(sig) != 1 or not cw:
         ctx.anchor("WRITE-FIRST", "poll/handlers", "writable test / signal test / consume_with not recognised")
     else:
@@ -433,10 +571,11 @@ def run(ctx):
                             "back re-queues them at the front, oldest last (push_front over the reversed FIFO collection)", floor=5)
 
     n_ops = 0
+    poll_family = family(poll)        # poll and the private helpers expanded into it
     for b in prog.bodies:
         if not (b.file or "").endswith("unix.rs"):
             continue
-        is_poll = b.path == poll.path or (b.closure_root or "") == poll.path
+        is_poll = b.path in poll_family or (b.closure_root or "") in poll_family
         for bb, t in b.calls():
             nm = callee_name(t) or ""
             if not re.search(r"VecDeque::<T, A>::|VecDeque<T, A> as std::iter::Extend", nm) or not t["args"]:
@@ -458,7 +597,7 @@ def run(ctx):
             # outside poll: events previously taken through poll are given back
             if op == "push_front":
                 e = expr(b, t["args"][1])
-                rev = bool(re.search(r"(Rev::next|Iterator::next)\(.*Iterator::rev\(.*into_iter\(", e)) or bool(re.search(r"Vec::pop\(", e))
+                rev = bool(re.search(r"(Rev::next|Iterator::next)\(.*Iterator::rev\(.*(into_iter|Vec::drain)\(", e)) or bool(re.search(r"Vec::pop\(", e))
                 ctx.instance("EVENT-ORDER", {"fn": b.path, "op": op, "element": e[:140], "reversed_fifo": rev, "ok": rev})
                 if not rev:
                     ctx.violation("EVENT-ORDER", b.path, "push_front-forward", "%s gives intercepted events back with push_front while iterating oldest first: they are delivered "
@@ -472,9 +611,12 @@ def run(ctx):
     # a body that sets events aside must give them back on every Ok return; an Ok return that skips the give-back is tolerated only
     # behind poll(None), which never returns Ok(None) (its loop ends only when the event queue is non-empty)
     from ..flow import ok_return_blocks
-    for b in prog.bodies:
-        if not (b.file or "").endswith("unix.rs") or b.path == poll.path or (b.closure_root or "") == poll.path:
+    for b0 in prog.bodies:
+        if not (b0.file or "").endswith("unix.rs") or b0.path in poll_family or (b0.closure_root or "") in poll_family:
             continue
+        if hosts(prog, b0.path) != {b0.path}:
+            continue          # a private helper expanded into its only caller: judged there, together with the caller's poll / give-back
+        b = inl(prog, b0.path, keep=POLL) or b0
         gb = [bb for bb, t in b.calls() if re.search(r"VecDeque::<T, A>::push_front$|VecDeque<T, A> as std::iter::Extend", callee_name(t) or "") and t["args"]
               and re.search(r"\.events_queue$", arg_place(b, t, 0) or "")]
         polls = [(bb, t) for bb, t in b.calls() if (callee_name(t) or "") == poll.path]
